@@ -80,6 +80,7 @@ func runC05(ctx *core.Ctx) {
 		c := genC05(core.CaseRef{Stream: "c05", Index: i}, r)
 		execC05(ctx, c)
 	})
+	c05EmptyStream(ctx)
 }
 
 // ---- running one path ------------------------------------------------------------------------
